@@ -297,7 +297,8 @@ def popInner (s : State) (maxBytes window : Nat) (newlyBlocked : Bool) : State Ã
           let s := { s with writeOffset := s.writeOffset + f.data.length }
           let more := if s.resetErr.isSome && s.writeOffset â‰¥ ro then false else more
           let blocked := if f.data.length == maxDataLen && newlyBlocked then some s.writeOffset else none
-          let fin := s.finishedWriting && s.dataForWriting.isEmpty && s.nextFrame.isNone && !s.finSent
+          -- no FIN once the stream is being reset: it ends with RESET_STREAM(_AT), not cleanly (a7958da)
+          let fin := s.finishedWriting && s.dataForWriting.isEmpty && s.nextFrame.isNone && !s.finSent && s.resetErr.isNone
           let s := if fin then { s with finSent := true } else s
           (s, { frame := some { f with fin := fin }, blocked := blocked, hasMore := more })
 
